@@ -764,3 +764,56 @@ def r3_15(rep):
                   "set for a `CXCursor_PackedAttr` child of the record cursor" if own else
                   "`packed_attr` is set inside %s: an attribute of a member is taken for an attribute of the record"
                   % ("the visitor of a member's children" if len(clos) > 1 or in_member_arm else "an arm that is not `CXCursor_PackedAttr`"), b.loc(n))
+
+
+@RULES.rule("R3.16", "the origin of an allocation unit is fixed by its first bit-field and never moves afterwards", floor=1)
+def r3_16(rep):
+    """`offset_into_unit` of every bit-field is `offset_in_struct - start_offset_in_struct`, and codegen places the unit at the offset of
+    its first bit-field (R3.9).  Both agree only if the origin is the first bit-field's offset.  A test like `unit_size_in_bits == 0`
+    is not "the unit is empty": a zero-width separator that opens the unit leaves the size at 0, the next bit-field moves the origin,
+    and `struct ZW { short s; char :0; long d:60; }` reads `d` at bytes 2..10 instead of 8..16 (before the fix).  In
+    `bitfields_to_allocation_units`: every assignment of the origin after its declaration is guarded by emptiness of the very vector
+    the unit's bit-fields are pushed to."""
+    import qq
+    from hir import strip as _strip
+    prog = rep.prog
+    b = rep.need(prog.fn("ir::comp::bitfields_to_allocation_units"), "ir::comp::bitfields_to_allocation_units")
+    news = [c for c in b.calls(lambda n: n["k"] == "Call" and (n.get("callee") or "").endswith("Bitfield::new"))]
+    rep.need(news, "Bitfield::new(offset - origin, ..) in bitfields_to_allocation_units")
+    origin = None
+    for c in news:
+        a = _strip(c["args"][0])
+        if a.get("k") == "Binary" and a["op"] == "-" and _strip(a["r"]).get("k") == "Local":
+            origin = _strip(a["r"])
+    rep.need(origin, "the origin local subtracted from a bit-field's offset")
+    # the vector the Bitfield values go to
+    vec = None
+    for c in b.calls(lambda n: n["k"] == "MCall" and n["name"] == "push"):
+        if any(x is n_ for n_ in news for x in b.walk(c["args"][0])):
+            vec = _strip(c["recv"])
+    rep.need(vec is not None and vec.get("k") == "Local", "the vector the unit's bit-fields are pushed to")
+    assigns = [n for n in b.walk() if n["k"] == "Assign" and _strip(n["l"]).get("k") == "Local" and _strip(n["l"])["id"] == origin["id"]]
+    rep.need(assigns, "assignments of the origin")
+    for n in assigns:
+        atoms = qq.guard_atoms(b, n)
+        # loop membership is not a guard; what remains must be exactly "the vector is empty"
+        def is_vec_empty(g):
+            g = _strip(g) if isinstance(g, dict) else {}
+            if g.get("k") == "Binary" and g.get("op") == "==":
+                l, r = _strip(g["l"]), _strip(g["r"])
+                if r.get("k") == "MCall":
+                    l, r = r, l
+                return l.get("k") == "MCall" and l.get("name") == "len" and _strip(l["recv"]).get("k") == "Local" and \
+                    _strip(l["recv"])["id"] == vec["id"] and r.get("k") == "Lit" and r.get("v") == 0
+            return g.get("k") == "MCall" and g.get("name") == "is_empty" and _strip(g["recv"]).get("k") == "Local" and \
+                _strip(g["recv"])["id"] == vec["id"]
+        # tests that do not read anything the loop changes (the `assert!` on the context at the top) are not about the unit
+        def about_unit(g):
+            return isinstance(g, dict) and any(x["k"] == "Local" and x["id"] in b.local_assigned for x in b.walk(g)) or is_vec_empty(g)
+        atoms = [(a, pol, g) for a, pol, g in atoms if about_unit(g)]
+        empt = [a for a, pol, g in atoms if pol and is_vec_empty(g)]
+        other = [a for a, pol, g in atoms if not (pol and is_vec_empty(g))]
+        ok = bool(empt) and not other
+        rep.check(ok, "unit-origin-fixed-by-first-bitfield", "the origin is (re)assigned only while no bit-field has been put into the unit" if ok else
+                  "the origin is reassigned under `%s`: that can still hold after a (zero-width) bit-field was put into the unit, whose "
+                  "successors are then measured from another origin than the one the unit is placed at" % "; ".join(x[:80] for x in (other or ["no test"])), b.loc(n))
